@@ -35,6 +35,8 @@ class Ctx:
         self.side = []  # side conditions (e.g. vec membership handled by caller)
         self.vec_choice = {}
         self.vec_seen = {}
+        self.defined = None  # when a list: definedness conditions (rotation amounts < width) of the translation
+        self.access_log = None  # when a list: (address term, nbytes) of every memory access translated
 
     def reg(self, name, size):
         k = (name, size)
@@ -66,6 +68,8 @@ def fit_addr(a, c):
 def load(mem, addr, nbytes, endian, c):
     """nbytes at addr.. ; endian 1: byte at lowest address is least significant"""
     n = addr.size()
+    if c.access_log is not None:
+        c.access_log.append((fit_addr(addr, c), nbytes))
     bs = [z3.Select(mem, fit_addr(addr + z3.BitVecVal(i, n), c)) for i in range(nbytes)]
     if endian == 1:
         bs = bs[::-1]
@@ -77,6 +81,8 @@ def store(mem, addr, val, endian, c):
     if val.size() % 8:
         raise TranslateError("store of non byte-sized value (%d bits)" % val.size())
     w = addr.size()
+    if c.access_log is not None:
+        c.access_log.append((fit_addr(addr, c), n))
     for i in range(n):
         k = i if endian == 1 else n - 1 - i
         mem = z3.Store(mem, fit_addr(addr + z3.BitVecVal(i, w), c), z3.Extract(8 * k + 7, 8 * k, val))
@@ -306,6 +312,8 @@ def T_eqn(e, c, mem):
             return r
         raise TranslateError("unary %s" % sym)
     l = T(e.l, c, mem)
+    if c.defined is not None and sym in (">>>", "<<<"):
+        c.defined.append(z3.ULT(r, z3.BitVecVal(l.size(), r.size())) if l.size() < (1 << r.size()) else z3.BoolVal(True))
     return bin_sem(sym, l, r, bool(e.l.sf), bool(e.r.sf))
 
 
@@ -416,6 +424,8 @@ def mem_final_from_mmap(m, c, mem=None):
                 base = z3.BitVecVal(0, c.addr_size)
             else:
                 base = fit_addr(T(rel, c, mem), c)
+            if c.access_log is not None:
+                c.access_log.append((base + z3.BitVecVal(o.vaddr, c.addr_size), len(data) if o.data._is_raw else data.size // 8))
             if o.data._is_raw:
                 for i, b in enumerate(data):
                     bt = zterm(b, 8) if isinstance(b, SInt) else z3.BitVecVal(b, 8)
